@@ -109,14 +109,16 @@ func (d *Downstream) Close(ctx context.Context) (err error) {
 }
 
 func (d *Downstream) closeWithError(ctx context.Context, cause error) (err error) {
-	defer d.cancel()
 	if d.isClosed() {
 		return nil
 	}
 	beforeStatus := d.state.Swap(streamStatusDraining)
 	if beforeStatus == streamStatusDraining {
+		// another call is closing the stream: it is left to finish (cancelling the stream here would
+		// make it send the close request without its final acknowledgements)
 		return errors.New("already draining")
 	}
+	defer d.cancel()
 
 	if beforeStatus != streamStatusResuming {
 		select {
